@@ -228,7 +228,11 @@ def _cfg(**kw):
     # values given as 288/k (k whole ticks), outside the named vocabulary
     base["groups"] = base["groups"] + [[["ticks", k]] for k in (1, 2, 3, 5, 7, 10, 11, 13, 14, 28, 31, 35, 56, 59, 62, 77, 100, 112, 115, 118, 124, 143, 211, 224, 250)]
     long_name = st.text(alphabet=st.characters(min_codepoint=32, max_codepoint=126), min_size=120, max_size=300)
-    base["text"] = st.one_of(base["text"], base["text"], base["text"], long_name)
+    # any 7-bit characters, control characters and NUL included (at the ends too): a name is a length-prefixed byte string
+    ctrl = st.text(alphabet=st.characters(min_codepoint=0, max_codepoint=127), min_size=1, max_size=8)
+    ends = st.builds(lambda a, m, z: a + m + z, st.sampled_from(["", "\x00", "\n", "\t", " ", "\x7f"]), st.text(alphabet="abcXYZ 09", max_size=6),
+                     st.sampled_from(["", "\x00", "\x00\x00", "\n", "\r\n", " ", "\x7f"]))
+    base["text"] = st.one_of(base["text"], base["text"], base["text"], long_name, ctrl, ends)
     base["twin_p"] = 5
     base["empty_track_p"] = 5
     base["subclass_p"] = 8
